@@ -157,7 +157,7 @@ def setup(ctx):
     install(ctx, laue)
 
 
-KINDS = ["oblique", "near_orth", "orthogonal", "special", "ties", "unimodular", "special", "unimodular", "oblique", "small"]
+KINDS = ["oblique", "near_orth", "orthogonal", "special", "ties", "unimodular", "special", "unimodular", "oblique", "small", "integer"]
 
 
 def reducedish(rng):
@@ -180,6 +180,11 @@ def workload(ctx):
             c = [float(x) for x in np.concatenate([np.array(c[:3]) / max(1.0, min(c[:3]) / 3.0), c[3:]])]
         elif kind == "near_orth":
             c, _ = gen.cell(rng, "near_orth")
+        elif kind == "integer":
+            # whole-number parameters, handed over as Python ints / an integer array
+            c = [int(v) for v in rng.integers(2, 12, 3)] + [int(v) for v in rng.choice([60, 75, 90, 90, 100, 120, 135, 150], 3)]
+            if oracle.gram_det_angular(c) < 0.05:
+                continue
         elif kind == "small":
             # sub-Angstrom axes (reciprocal-space or reduced-unit usage): absolute tolerances inside the search matter here
             c, _ = gen.cell(rng, ["generic", "near_orth", "one90"][int(rng.integers(3))])
@@ -221,7 +226,7 @@ def workload(ctx):
             c = oracle.cell_from_metric(G)
             if oracle.gram_det_angular(c) < 0.02:
                 continue
-        yield "reduce", {"cell": [float(x) for x in c], "kind": kind}
+        yield "reduce", {"cell": [int(x) for x in c] if kind == "integer" else [float(x) for x in c], "kind": kind}
 
 
 def case_reduce(ctx, p):
@@ -234,7 +239,8 @@ def case_reduce(ctx, p):
         del ctx.seen[m][:]
         ctx.in_reduce[m] = True
         try:
-            mod.reduce_cell(np.array(c) if p["kind"] == "orthogonal" else c)
+            arg = np.array(c) if p["kind"] == "orthogonal" or (p["kind"] == "integer" and c[0] % 2) else (tuple(c) if p["kind"] == "integer" and c[1] % 2 else c)
+            mod.reduce_cell(arg)
         except Exception as exc:
             mon.check("workload:%s.reduce_cell raises on a valid cell" % m, False, observed=repr(exc), detail=c)
         finally:
